@@ -677,6 +677,38 @@ func r075(c *Ctx, r *R) {
 		}
 		r.Check(ok && hasFalse && len(sets) >= 2, "crdt.config:TrustAll", fd.Pos(), "loading JSON resets TrustAll and sets it only under the literal \"*\"", "TrustAll can become true from JSON without the \"*\" entry (or is not reset)")
 	}
+	// the reset is unconditional: Default() leaves TrustAll = true, so a
+	// reset that some JSON input skips (a missing or null trusted_peers
+	// key) trusts everyone without a "*" entry. The store of false must
+	// dominate every exit that can report success.
+	if af := c.fn(r, "consensus/crdt", "Config.applyJSONConfig"); af != nil {
+		var resets []*ssa.Store
+		instrs(af, func(i ssa.Instruction) {
+			st, ok := i.(*ssa.Store)
+			if !ok {
+				return
+			}
+			fa, ok := st.Addr.(*ssa.FieldAddr)
+			if !ok || fieldOfAddr(fa).Name() != "TrustAll" || paramIndex(af, fa.X) != 0 {
+				return
+			}
+			if k, isK := constOf(st.Val); isK && k != nil && !boolVal(k) {
+				resets = append(resets, st)
+			}
+		})
+		for _, lf := range returnLeaves(af, 0) {
+			if call, _ := originCall(lf.Val); call != nil && (nameMatches(callName(call.Common()), "fmt.Errorf") || nameMatches(callName(call.Common()), "errors.New")) {
+				continue // a definite error: the configuration is not used
+			}
+			dom := false
+			for _, st := range resets {
+				if st.Block() == lf.Block || st.Block().Dominates(lf.Block) {
+					dom = true
+				}
+			}
+			r.Check(dom, "crdt.config:TrustAll:reset-unconditional", lf.Pos, "every successful exit of applyJSONConfig is dominated by TrustAll = false", "applyJSONConfig can succeed without having reset TrustAll (true by default): a configuration without a \"*\" entry (missing/null/empty list on that path) trusts every peer")
+		}
+	}
 }
 
 // fieldOfAddrValue: v is &x.f (FieldAddr) -> f.
